@@ -23,7 +23,7 @@ def queries(tier):
         qs.append(Query(name="reldist_copy%d" % c, harness="C22/rd_copy.c", defines=["COPY=%d" % c],
                         funcs=[f], bound="bits 1..8, all a,b in [0,2^bits), enable flag both ways",
                         what="relative distance == signed (a-b) mod 2^bits, in range, no UB", timeout=300))
-    qs.append(Query(name="skip_mode_wrap", harness="C22/skipmode.c", gen=gen, unwind=9, timeout=900,
+    qs.append(Query(name="skip_mode_wrap", harness="C22/skipmode.c", gen=gen, unwind=9, timeout=900, backend="cadical",
                     funcs=["Source/Lib/Encoder/Codec/EbPictureDecisionProcess.c:svt_av1_setup_skip_mode_allowed", COPIES[3]],
                     bound="7 references at true distances -63..63, current picture at every residue of the 2^7 period (4 periods)",
                     what="skip-mode reference pair equals the spec selection on true distances at every position of the order-hint period"))
